@@ -28,7 +28,7 @@ func init() {
 		Tech:        "static analysis: lock-state dataflow on cacheWrapper/sharedEncryption, loop-exit guarded-by-condition, who-may-call over the closure-binding call graph",
 		NeedU1:      true,
 		NeedU2:      true,
-		Rules:       []func(*Ctx){ruleC16GetAtomic, ruleC16TeardownWaits, ruleC16SingleTeardownPath, ruleC16SharedWrapper, ruleC15ValuesAreOpaque, ruleC09CloseChains, ruleC19CloseOnExit, ruleC15CallbackExactlyOnce, ruleC15RemovalNotifies, ruleC15ExpiryEvicts, ruleC15RemoveUnlinks, ruleC15RelinkIsAMove, ruleC15ElementRecorded, ruleC15RegistrationFollowsSegment, countersCannotWrapRule("C16", 1, pkgApp), ruleC16EveryCloseReleasesOneUsage, condOnSameLockRule("C16", [4]string{pkgApp, "sharedEncryption", "mu", "cond"}), lostUpdateRule("C16", "github.com/godaddy/asherah/go/appencryption"), lockBalancedRule("C16", 5, lockDomSpec{pkgApp, "cacheWrapper", "mu"}, lockDomSpec{pkgApp, "sharedEncryption", "mu"}), ruleC15PromotionFlagBeforeRebalance, ruleC08SessionCloseOnlyClosesEncryption},
+		Rules:       []func(*Ctx){ruleC16GetAtomic, ruleC16TeardownWaits, ruleC16SingleTeardownPath, ruleC16SharedWrapper, ruleC15ValuesAreOpaque, ruleC09CloseChains, ruleC19CloseOnExit, ruleC15CallbackExactlyOnce, ruleC15RemovalNotifies, ruleC15ExpiryEvicts, ruleC15RemoveUnlinks, ruleC15RelinkIsAMove, ruleC15ElementRecorded, ruleC15RegistrationFollowsSegment, countersCannotWrapRule("C16", 1, pkgApp), ruleC16EveryCloseReleasesOneUsage, condOnSameLockRule("C16", [4]string{pkgApp, "sharedEncryption", "mu", "cond"}), lostUpdateRule("C16", "github.com/godaddy/asherah/go/appencryption"), lockBalancedRule("C16", 5, lockDomSpec{pkgApp, "cacheWrapper", "mu"}, lockDomSpec{pkgApp, "sharedEncryption", "mu"}), ruleC15PromotionFlagBeforeRebalance, ruleC08SessionCloseOnlyClosesEncryption, ruleC15ListHandleBelongsToItsItem, ruleC15SegmentFlagFollowsList, ruleC15SegmentMoveConserves},
 	})
 }
 
